@@ -499,6 +499,13 @@ func checkReturnedLine(c *Ctx, rule string) {
 			}
 		})
 	}
+	if A != nil {
+		ok, _ := mustPassBefore(A, nil, isReturn, func(in ssa.Instruction) bool {
+			_, is := isFieldStore(in, "history.Sources", "acceptLine")
+			return is
+		})
+		r.Check(ok, rule, fnName(A)+":stores-on-every-path", p.Pos(A.Pos()), "every path through Accept stores the buffer as the accepted line", "a path through Accept returns without storing the buffer as the accepted line: Readline returns the previous (or an empty) line for some typed text")
+	}
 	if LA := p.Func("(*history.Sources).LineAccepted"); LA != nil {
 		r.Fn(fnName(LA))
 		eachInstr(LA, func(in ssa.Instruction) {
